@@ -139,31 +139,18 @@ Section Sim.
       + rewrite each_flat_map. apply IHl; auto. intros p s1 t1 H1. destruct (snd p).
         * apply IHr; auto.
         * rewrite each_one. apply Hk; auto.
-      + intros s' t' H'. apply IHr; auto.
+      + intros s' t' H'. rewrite each_filter. apply IHr; auto.
+        intros p s1 t1 H1. destruct (snd p); simpl; [split; auto | apply Hk; auto].
     - simpl. rewrite each_map. apply IH; auto. intros p s1 t1 H1. apply Hk; auto.
   Qed.
 
-  Lemma drain_sim e b s t : R s t -> R (drain W D e b s) t.
-  Proof.
-    intros HR. unfold drain.
-    pose proof (opnd_sim e b (fun _ s1 => (s1, Continue)) (fun _ t1 => (t1, Continue))) as H.
-    specialize (H (fun _ s0 t0 H0 => conj eq_refl H0) s t HR).
-    rewrite each_skip in H. destruct H as [_ H]. exact H.
-  Qed.
-
-  Lemma drain_all_sim sels b : forall s t, R s t -> R (drain_all W D sels b s) t.
-  Proof.
-    unfold drain_all. induction sels as [|e sels IH]; intros s t HR; simpl; auto.
-    apply IH. apply drain_sim; auto.
-  Qed.
-
-  Lemma select_sim sels b (k : list val -> store -> store * signal) k' :
+  Lemma select_sim sels : forall b (k : list val -> store -> store * signal) k',
     ksim k k' -> forall s t, R s t -> R2 (tr_select W D sels b k s) (each k' (select W D sels b) t).
   Proof.
-    intros Hk s t HR. unfold tr_select.
-    replace (each k' (select W D sels b) t) with (each k' (map (fun r => r) (select W D sels b)) t)
-      by (now rewrite map_id).
-    apply each_sim; auto. apply drain_all_sim; auto.
+    induction sels as [|e ss IH]; intros b k k' Hk s t HR; simpl.
+    - rewrite andthen_ret. apply Hk; auto.
+    - rewrite each_flat_map. apply opnd_sim; auto. intros p s1 t1 H1. rewrite each_map.
+      apply IH; auto. intros row s2 t2 H2. apply Hk; auto.
   Qed.
 
   Lemma run_sim q (k : list val -> store -> store * signal) k' :
@@ -322,19 +309,15 @@ Section Prefix.
     - apply IHl. intros p s1. destruct (snd p); [apply IHr; auto | apply Hk].
     - apply andthen_mono.
       + apply IHl. intros p s1. destruct (snd p); [apply IHr; auto | apply Hk].
-      + intros s'. apply IHr; auto.
+      + intros s'. apply IHr; auto. intros p s1. destruct (snd p); [apply Ext_refl | apply Hk].
     - apply IH. intros p s1. apply Hk.
   Qed.
 
-  Lemma drain_mono e b s : Ext s (drain W D e b s).
-  Proof. unfold drain. apply opnd_mono. intros p s1. apply Ext_refl. Qed.
-  Lemma drain_all_mono sels b : forall s, Ext s (drain_all W D sels b s).
+  Lemma select_mono sels : forall b k, kmono k -> forall s, Ext s (fst (tr_select W D sels b k s)).
   Proof.
-    unfold drain_all. induction sels as [|e sels IH]; intros s; simpl; [apply Ext_refl|].
-    eapply Ext_trans; [apply drain_mono | apply IH].
+    induction sels as [|e ss IH]; intros b k Hk s; simpl; [apply Hk|].
+    apply opnd_mono. intros p s1. apply IH. intros row s2. apply Hk.
   Qed.
-  Lemma select_mono sels b k : kmono k -> forall s, Ext s (fst (tr_select W D sels b k s)).
-  Proof. intros Hk s. unfold tr_select. eapply Ext_trans; [apply drain_all_mono | apply each_mono; auto]. Qed.
   Lemma run_mono q k : kmono k -> forall s, Ext s (fst (tr_run W D q k s)).
   Proof.
     intros Hk s. unfold tr_run. destruct (q_cond q) as [c|]; [|apply select_mono; auto].
@@ -386,18 +369,29 @@ Section Prefix.
       + apply IHl.
         * intros p s1. destruct (snd p); [apply IHr; auto | apply Hr].
         * intros p s1. destruct (snd p); [apply cond_mono; auto | apply Hm].
-      + intros s'. apply IHr; auto.
-      + intros s'. apply cond_mono; auto.
+      + intros s'. apply IHr.
+        * intros p s1. destruct (snd p); [reflexivity | apply Hr].
+        * intros p s1. destruct (snd p); [apply Ext_refl | apply Hm].
+      + intros s'. apply cond_mono; auto. intros p s1. destruct (snd p); [apply Ext_refl | apply Hm].
     - apply IH.
       + intros p s1. apply Hr.
       + intros p s1. apply Hm.
+  Qed.
+
+  Lemma select_rel sels : forall b kA kB, krel kA kB -> kmono kB ->
+    forall s, Rel (tr_select W D sels b kA s) (tr_select W D sels b kB s).
+  Proof.
+    induction sels as [|e ss IH]; intros b kA kB Hr Hm s; simpl; [apply Hr|].
+    apply opnd_rel.
+    - intros p s1. apply IH; [intros row s2; apply Hr | intros row s2; apply Hm].
+    - intros p s1. apply select_mono. intros row s2. apply Hm.
   Qed.
 
   Lemma run_rel q kA kB : krel kA kB -> kmono kB -> forall s, Rel (tr_run W D q kA s) (tr_run W D q kB s).
   Proof.
     intros Hr Hm s. unfold tr_run.
     assert (Hsel : forall b s1, Rel (tr_select W D (q_sels q) b kA s1) (tr_select W D (q_sels q) b kB s1)).
-    { intros b s1. unfold tr_select. apply each_rel; auto. }
+    { intros b s1. apply select_rel; auto. }
     destruct (q_cond q) as [c|]; [|apply Hsel].
     apply cond_rel.
     - intros p s1. destruct (snd p); [reflexivity | apply Hsel].
@@ -553,21 +547,26 @@ Section Order.
         * intros p s1. destruct (snd p); [apply cond_mono; auto | apply Hm].
         * intros p s1 H1. destruct (snd p); [apply IHr; auto | apply Hk; auto].
       + intros s' H'. apply IHr; auto.
+        * intros p s1. destruct (snd p); [apply Ext_refl | apply Hm].
+        * intros p s1 H1. destruct (snd p); [exact H1 | apply Hk; auto].
     - apply IH; auto.
       + intros p s1. apply Hm.
       + intros p s1. apply Hk.
   Qed.
 
-  Lemma drain_inv e b s : Inv s -> Inv (drain W D e b s).
-  Proof. intros Hs. unfold drain. apply opnd_inv; auto; [intros p s1; apply Ext_refl | intros p s1 H1; exact H1]. Qed.
-  Lemma drain_all_inv sels b : forall s, Inv s -> Inv (drain_all W D sels b s).
-  Proof. unfold drain_all. induction sels as [|e sels IH]; intros s Hs; simpl; auto. apply IH, drain_inv; auto. Qed.
+  Lemma select_inv sels : forall b k, kmono k -> kinv k -> forall s, Inv s -> Inv (fst (tr_select W D sels b k s)).
+  Proof.
+    induction sels as [|e ss IH]; intros b k Hm Hk s Hs; simpl; [apply Hk; auto|].
+    apply opnd_inv; auto.
+    - intros p s1. apply select_mono. intros row s2. apply Hm.
+    - intros p s1 H1. apply IH; auto; [intros row s2; apply Hm | intros row s2; apply Hk].
+  Qed.
 
   Lemma run_inv q k : kmono k -> kinv k -> forall s, Inv s -> Inv (fst (tr_run W D q k s)).
   Proof.
     intros Hm Hk s Hs. unfold tr_run.
     assert (Hsel : forall b s1, Inv s1 -> Inv (fst (tr_select W D (q_sels q) b k s1))).
-    { intros b s1 H1. unfold tr_select. apply each_inv; auto. apply drain_all_inv; auto. }
+    { intros b s1 H1. apply select_inv; auto. }
     destruct (q_cond q) as [c|]; [|apply Hsel; auto].
     apply cond_inv; auto.
     - intros p s1. destruct (snd p); [apply Ext_refl | apply select_mono; auto].
